@@ -4,6 +4,7 @@
 #include "common.hpp"
 #include "monitors.hpp"
 #include <cstdlib>
+#include <chrono>
 
 namespace vf{
 std::map<std::string, std::string> g_args;
@@ -30,6 +31,7 @@ int main(int argc, char **argv){
     for(long long i=first; i<first+count; i++){
         vf::CaseCtx c; c.seed = seed; c.index = i; c.prop = pnum; c.thorough = thorough;
         vf::Rng rng(seed, (uint64_t) pnum, (uint64_t) i);
+        auto t0 = std::chrono::steady_clock::now();
         try{
             it->second(c, rng);
         }catch(std::exception &e){
@@ -37,6 +39,7 @@ int main(int argc, char **argv){
             c.viol(std::string("uncaught:") + vf::exception_class(e), vf::J().str("what", e.what()).obj());
         }
         vf::emit_end(c);
+        if (getenv("VF_TIMING")) fprintf(stderr, "T %lld %.1f ms\n", i, std::chrono::duration<double, std::milli>(std::chrono::steady_clock::now() - t0).count());
     }
     return 0;
 }
